@@ -558,7 +558,7 @@ def simulator_chain_concrete(ctx, repo, fi):
     from ..facademodel import init_defaults
     attrs = init_defaults(repo, "GeckoSimulator")
     attrs.update({"structure": Obj(None, {"status_block": block}), "_socket": Obj(None, {"queue_send": Native(lambda a, k: sent.append(a[0]))})})
-    me = Obj(fi.cls, attrs)
+    me = Obj(repo.cls("GeckoSimulator"), attrs)
     interp.attr_hook = lambda _i, b_, a_: (Native(lambda a, k: False) if (b_ is me and a_ == "_should_ignore") else NotImplemented)
     lengths = list(range(1, 1025))
     for start in (0, 5, 256, 612):
@@ -636,7 +636,12 @@ def simulator_chain(ctx, repo):
                  f"R6 is decided by the concrete interpretation (every length 1..1024 from starts 0, 5, 256, 612) only")
         return
     A, stop, step = it.args[0].args
-    fold = lambda e: repo.fold(e, fi.mod, fi.cls)  # noqa
+    _sim = repo.cls("GeckoSimulator")   # class constants live on the simulator, wherever the method body is kept
+    def fold(e):
+        try:
+            return repo.fold(e, fi.mod, fi.cls)
+        except Unfoldable:
+            return repo.fold(e, _sim.mod, _sim)
     try:
         S = fold(step)
     except Unfoldable:
@@ -712,6 +717,11 @@ def check(ctx):
                 callers.append(fi.qual)
     allowed = {"GeckoAsyncStructure.get", "GeckoStructure._on_status_block_received", "GeckoAsyncSpa._async_on_partial_status_update",
                "GeckoSpa._on_partial_status_update", "GeckoSimulator.set_snapshot", "GeckoSimulator._on_set_value"}
+    # the same operations wherever the class hierarchy keeps their bodies (a mixin / hoisted base of the named class)
+    for q_ in sorted(allowed):
+        m_ = repo.method(*q_.split("."), required=False)
+        if m_ is not None:
+            allowed.add(m_.qual)
     ctx.ob("R3", "who-may-install", set(callers) <= allowed, f"status block also installed from {sorted(set(callers) - allowed)}")
     ctx.assume("STATU/STATV encode/decode layout agreement is decided under C04")
     ctx.note("Not decided: success under concrete loss/duplication/re-order/delay patterns; delayed segments of an earlier transfer accepted by a later one; the sync stack's timeout-driven resend (GeckoUdpProtocolHandler.loop) does not reset the assembly and self-heals through the out-of-sequence path (documented residual).")
